@@ -63,7 +63,7 @@ def remove_unused_self_cls(source: str) -> str:
                     continue
                 decorator = "staticmethod"
                 delete_decorators.add("classmethod")
-            funcdef_copy = copy.copy(funcdef)
+            funcdef_copy = copy.deepcopy(funcdef)  # funcdef belongs to the cached, shared tree
             funcdef_copy.lineno = min(x.lineno for x in ast.walk(funcdef) if hasattr(x, "lineno"))
             funcdef_copy.decorator_list = [
                 dec
@@ -78,7 +78,7 @@ def remove_unused_self_cls(source: str) -> str:
                     lineno=funcdef.lineno - 1,
                     col_offset=funcdef.col_offset,
             ),)
-            args = funcdef.args.posonlyargs or funcdef.args.args
+            args = funcdef_copy.args.posonlyargs or funcdef_copy.args.args
             if args:
                 del args[0]
             if decorator == "classmethod":
